@@ -252,8 +252,15 @@ func (a *Allocator) addBufferAt(bufIdx, minSz int) {
 	}
 	assert(bufIdx > 0)
 	// We need to allocate a new buffer.
-	// Make pageSize double of the last allocation.
-	pageSize := 2 * len(a.buffers[bufIdx-1])
+	// Make pageSize double of the last allocation. TrimTo can have released the
+	// buffers right before this slot (it releases every buffer beyond a size
+	// limit, also the one allocations were going to): size from the nearest
+	// buffer that is still there. The first buffer is never released.
+	prev := bufIdx - 1
+	for prev > 0 && len(a.buffers[prev]) == 0 {
+		prev--
+	}
+	pageSize := 2 * len(a.buffers[prev])
 	// Ensure pageSize is bigger than sz.
 	for pageSize < minSz {
 		pageSize *= 2
